@@ -168,6 +168,14 @@ func (e *BinaryOpExpr) execEqual(kv KVPair, ctx *ExecuteCtx) (bool, error) {
 		if lok && rok {
 			return lint == rint, nil
 		}
+		// integer compared with float
+		if ret, err := execNumberCompare(rleft, rright, "="); err == nil {
+			return ret, nil
+		}
+	case float32, float64:
+		if ret, err := execNumberCompare(rleft, rright, "="); err == nil {
+			return ret, nil
+		}
 	case bool:
 		lbool, lok := rleft.(bool)
 		rbool, rok := rright.(bool)
